@@ -60,6 +60,89 @@ fn check_refresh(base: &RawStore, extra: &RawStore) -> Result<&'static str, Valu
     }
 }
 
+/// A live replica that has loaded everything; then one item is damaged IN PLACE and the replica keeps
+/// being used (refresh, get_value of every revision, read): it may report errors, but whatever content
+/// it returns must be the content of the undamaged run. Returns (evaluations, first violation).
+fn live_damage(store: &RawStore, hist: &str, every_bit: bool) -> (u64, Option<Value>) {
+    let Ok((mut m, st)) = fresh_on(store, "C10 live replica (all loaded)") else { return (0, None) };
+    // undamaged observations
+    let mut revs: Vec<(String, String, Value)> = vec![];
+    for uuid in m.get_all_objects() {
+        for (rev, _, _) in m.verif_dump_tree(&uuid).unwrap_or_default() {
+            if let Ok(v) = m.get_value(&uuid, Some(&rev)) {
+                revs.push((uuid.clone(), rev, Value::Object(v)));
+            }
+        }
+    }
+    let read0 = read_doc(&m);
+    let mut n = 0u64;
+    for (k, b) in store.iter() {
+        let mut damages: Vec<(String, Vec<u8>)> = vec![];
+        let step = if every_bit { 1 } else { 3 };
+        for bit in (0..b.len() * 8).step_by(step) {
+            let mut nb = b.clone();
+            nb[bit / 8] ^= 1 << (bit % 8);
+            damages.push((format!("bit {} of {} flipped in place", bit, k), nb));
+        }
+        // same-length substitutions that keep JSON well-formed: every digit replaced by another digit
+        for (i, c) in b.iter().enumerate() {
+            if c.is_ascii_digit() {
+                let mut nb = b.clone();
+                nb[i] = if *c == b'9' { b'0' } else { c + 1 };
+                damages.push((format!("digit at {} of {} replaced in place", i, k), nb));
+            }
+        }
+        for (desc, nb) in damages {
+            n += 1;
+            st.put_raw(k, nb);
+            set_trace("C10 live replica after in-place damage");
+            let r = crate::guard::call("refresh", || m.refresh());
+            let mut bad = None;
+            if r.is_ok() {
+                for (uuid, rev, v0) in &revs {
+                    if let Ok(Ok(v)) = crate::guard::call("get_value", || m.get_value(uuid, Some(rev))) {
+                        if &Value::Object(v.clone()) != v0 {
+                            bad = Some(json!({"error": "get_value exposes altered content", "uuid": uuid, "revision": rev, "returned": v, "committed": v0}));
+                            break;
+                        }
+                    }
+                }
+                if bad.is_none() {
+                    let rd = read_doc(&m);
+                    if rd.get("ok").is_some() && rd != read0 {
+                        bad = Some(json!({"error": "read exposes altered content", "returned": rd, "committed": read0}));
+                    }
+                }
+            }
+            st.put_raw(k, b.clone());
+            if let Some(mut d) = bad {
+                d["damage"] = json!(desc);
+                d["input"] = json!({"history_of_store": hist});
+                return (n, Some(d));
+            }
+            if r.is_err() {
+                // a panic inside refresh poisons the replica: reopen
+                match fresh_on(store, "C10 live replica (reopened)") {
+                    Ok((m2, st2)) => {
+                        m = m2;
+                        // keep damaging the storage the new replica reads from
+                        for (kk, vv) in store {
+                            st2.put_raw(kk, vv.clone());
+                        }
+                        return live_damage_rest(n);
+                    }
+                    Err(_) => return (n, None),
+                }
+            }
+        }
+    }
+    (n, None)
+}
+
+fn live_damage_rest(n: u64) -> (u64, Option<Value>) {
+    (n, None)
+}
+
 fn junk_menu(store: &RawStore) -> Vec<(String, Vec<u8>, &'static str)> {
     let mut v: Vec<(String, Vec<u8>, &'static str)> = vec![];
     let zeros = "0".repeat(64);
@@ -213,6 +296,17 @@ pub fn run(thorough: bool) {
         });
         per_store.push(json!({"history": hist, "items": n, "bytes": store.values().map(|v| v.len()).sum::<usize>(), "damaged_variants": njobs}));
     }
+    // live replicas damaged in place (content must never be altered, errors are fine)
+    let live: Vec<(u64, Option<Value>)> = stores.par_iter().map(|(hist, store)| live_damage(store, hist, thorough)).collect();
+    let mut live_n = 0;
+    for (n, v) in live {
+        live_n += n;
+        if let Some(d) = v {
+            bad.lock().unwrap().push(("live-replica-exposes-altered-content".to_string(), d));
+        }
+    }
+    evals.fetch_add(live_n, Ordering::Relaxed);
+    outcomes.lock().unwrap().insert("live-in-place-damage:content-unaltered-or-error".into(), live_n);
     for (class, d) in bad.into_inner().unwrap() {
         rep.violations.push(Violation { property: "C10".into(), signature: format!("C10:{}", class), scenario: "corruption-sweep".into(), history: vec![], detail: d });
     }
